@@ -1,4 +1,5 @@
 import datetime as dt
+from decimal import Decimal
 from mindsdb_sql.parser.ast.base import ASTNode
 from mindsdb_sql.parser.utils import indent
 
@@ -21,6 +22,11 @@ class Constant(ASTNode):
             out_str = 'TRUE' if self.value else 'FALSE'
         elif isinstance(self.value, (dt.date, dt.datetime, dt.timedelta)):
             out_str = "'{}'".format(str(self.value).replace("'", "''"))
+        elif isinstance(self.value, float) and 'e' in repr(self.value):
+            # the lexers have no exponent notation (1e-05 would be read as the name 1e minus 5): write the same value in plain decimal notation
+            out_str = format(Decimal(repr(self.value)), 'f')
+            if '.' not in out_str:
+                out_str += '.0'
         else:
             out_str = str(self.value)
         return out_str
